@@ -58,7 +58,26 @@ def build(ctx, p):
     return W
 
 
-def run(ctx, W):
+class _Chooser:
+    """ctx.choose with a per-operation memo: a second world replays the choices of the first"""
+
+    def __init__(self, ctx, memo):
+        self.ctx, self.memo = ctx, memo
+
+    def choose(self, name, options):
+        if name in self.memo:
+            return self.memo[name]
+        v = self.ctx.choose(name, options)
+        self.memo[name] = v
+        return v
+
+    def __getattr__(self, a):
+        return getattr(self.ctx, a)
+
+
+def run(ctx, W, memo=None):
+    if memo is not None:
+        ctx = _Chooser(ctx, memo)
     p = W.p
     op = p["op"]
     wl = W.wl
@@ -123,7 +142,7 @@ def run(ctx, W):
         g = W.geo[W.dst.name]
         seen, uniq = set(), []
         for w in ids:   # pairwise distinct positions (the property's precondition)
-            pos = g.encode(w, W.dev)
+            pos = g.encode(w, p.get("uniq_dev", W.dev))
             if pos not in seen:
                 seen.add(pos)
                 uniq.append(w)
